@@ -656,6 +656,10 @@ func TestVerifC12(t *testing.T) {
 		if !w.Want(i) {
 			continue
 		}
+		if timeouts > 25 { // the writer stopped delivering: do not spend hours waiting
+			w.Extra["aborted_after_timeouts"] = true
+			break
+		}
 		r := w.Rand(i)
 		var nextID uint64
 		switch {
